@@ -142,7 +142,8 @@ pub fn image_streams(img: &J) -> Result<(String, Vec<(String, Vec<u8>)>), String
     }
     out.push((pack_name("_StringPool", true), pool));
     out.push((pack_name("_StringData", true), data));
-    for t in img["tables"].as_array().cloned().unwrap_or_default() {
+    let ostreams = img["ostreams"].as_array().cloned().unwrap_or_default();
+    for t in img["tables"].as_array().cloned().unwrap_or_default().into_iter().chain(ostreams) {
         let name = from_cps(&t["name"]);
         let words: Vec<i64> = t["words"].as_array().cloned().unwrap_or_default().iter().map(|w| w.as_i64().unwrap_or(0)).collect();
         let rows = t["cells"].as_array().cloned().unwrap_or_default();
